@@ -102,4 +102,22 @@ Proof.
     rewrite IH; auto; lia.
 Qed.
 
+(* the zip equation of a completed run: the k-th task of a process is made of the outputs of the k-th tasks of its
+   producers -- exactly the recursion the sequential reference evaluator (WfModel.eval_proc: transpose of the in-columns)
+   computes, so the concurrent network and the sequential evaluator create the same tasks *)
+Theorem final_zip_equation s g v k : AllInv s g -> final s -> v < nn c -> k < len v ->
+  nth k (crt g v) [] =
+  match slen c v with
+  | Some _ => [nth k (sitems gc v) 0]
+  | None => map (fun y => nth k (map (outf gc (esrc c y) y) (crt g (esrc c y))) 0) (ins c v)
+  end.
+Proof.
+  intros A F Hv Hk. pose proof A as [I1 [_ G]].
+  destruct (final_complete s I1 F) as [Hn _]. destruct (Hn v Hv) as [Hc _].
+  assert (Hk' : k < cN (ns s v)) by lia.
+  rewrite (g_crt c gc s g G v k Hv Hk'). unfold tuple_of. destruct (slen c v); [reflexivity|].
+  apply map_ext_in. intros y Hy. apply in_ins in Hy. destruct Hy as [HyE _].
+  now rewrite (final_hist s g y A F HyE).
+Qed.
+
 End NetTop.
